@@ -74,14 +74,61 @@ def corruptions():
     return out
 
 
+def ops_corruptions():
+    """The same for the operation layer (TraceOps): one field of a valid operation trace at a time."""
+    from harness import ops
+    fn = ops.record_fn({"fn": "hrevolve", "l": 6, "cvect": (1, 2), "costs": (1, 1, (0, 2), (0, 2), 1)})
+    rv = ops.record_fn({"fn": "revolve", "l": 5, "cm": 2, "costs": (1, 1, 2, 2, 1)})
+    cl = ops.record_class({"cls": "HRevolve", "max_n": 7, "ram": 1, "disk": 2, "costs": (1, 1, 2, 2, 1)})
+    out = [("valid hrevolve sequence", fn, None), ("valid revolve sequence", rv, None),
+           ("valid HRevolve operation list + stream", cl, None)]
+
+    def mut(name, src, f, expect):
+        t = copy.deepcopy(src)
+        f(t)
+        out.append((name, t, expect))
+
+    def opi(t, ty, nth=0):
+        return first(t, lambda e: e[0] == ty, nth)
+
+    def acti(t, k, nth=0):
+        return [i for i, a in enumerate(t["acts"]) if a[0] == k][nth]
+
+    mut("op: Forward ends one step early", fn, lambda t: t["ev"][opi(t, 0)].__setitem__(2, t["ev"][opi(t, 0)][2] - 1), "OP.fwd_start")
+    mut("op: a Write dropped", fn, lambda t: t["ev"].pop(opi(t, 2, 1)), "OP.read_exists")
+    mut("op: Read from the other level", fn, lambda t: t["ev"][opi(t, 3)].__setitem__(3, 1), "OP.read_exists")
+    mut("op: a Backward dropped", fn, lambda t: t["ev"].pop(opi(t, 1, 1)), "OP.bwd_order")
+    mut("op: Write_Forward dropped", fn, lambda t: t["ev"].pop(opi(t, 5, 2)), "OP.bwd_tape")
+    fz = ops.record_fn({"fn": "hrevolve", "l": 6, "cvect": (1, 2), "costs": (1, 1, (0, 0), (0, 0), 1)})
+    mut("op: disk capacity one less", fz, lambda t: t["p"]["cap"].__setitem__(1, 1), "OP.capacity")
+    mut("op: makespan attribute off by one", fn, lambda t: t["p"].__setitem__("mk", t["p"]["mk"] + 1), "OP.makespan")
+    mut("op: storage attribute misses a write", fn, lambda t: t["p"]["claim"][1].pop(), "OP.storage_attr")
+    mut("op: memory attribute reordered", rv, lambda t: t["p"]["claim"][0].reverse(), "OP.storage_attr")
+    mut("op: read cost not charged", fn, lambda t: t["p"]["r"].__setitem__(1, 0), "OP.makespan")
+    mut("op: a second Write before the Forward", fn,
+        lambda t: t["ev"].insert(1, [2, 0, 0, 0]), "OP.write_then_forward")
+    mut("conv: Move emitted as Copy", cl, lambda t: t["acts"][acti(t, 3)].__setitem__(0, 2), "CONV.load")
+    mut("conv: checkpoint written to the other storage", cl,
+        lambda t: t["acts"][[i for i, a in enumerate(t["acts"]) if a[0] == 0 and a[3] == 1][0]].__setitem__(5, 0), "CONV.forward")
+    mut("conv: EndForward missing", cl, lambda t: t["acts"].pop(acti(t, 4)), "CONV.forward")
+    mut("conv: a Reverse missing", cl, lambda t: t["acts"].pop(acti(t, 1, 2)), "CONV.reverse")
+    mut("conv: an extra action at the end", cl, lambda t: t["acts"].append([5, 0, 0, 0, 0, 3, 3]), "CONV.all_consumed")
+    mut("conv: adjoint dependencies not flagged", cl,
+        lambda t: t["acts"][[i for i, a in enumerate(t["acts"]) if a[0] == 0 and a[4] == 1][1]].__setitem__(4, 0), "CONV.forward")
+    return out
+
+
 def main():
     ctx = fw.Ctx("SELFTEST", "quick", 0)
     cases = corruptions()
     traces = [t for _, t, _ in cases]
+    ocases = ops_corruptions()
     try:
         verdicts = fw.validate(ctx, traces)
+        verdicts += fw.validate(ctx, [t for _, t, _ in ocases], module="TraceOps", tag="ops")
     finally:
         ctx.cleanup()
+    cases = cases + ocases
     bad = 0
     for (name, t, expect), v in zip(cases, verdicts):
         got = sorted({c for c, _, _ in v["viol"]})
